@@ -104,7 +104,7 @@ def model_req(s):
                                                      outs[0], " ".join(steps))
     steps = []
     for i in range(1, len(outs) + 1):    # event of the wait after run i
-        if k == i and kind in ("inF", "midwait"):
+        if k == i and kind in ("inF", "midwait", "sigF"):
             steps.append("C"); break
         if k == i and kind == "midwaitDL":
             steps.append("D"); break
@@ -168,7 +168,7 @@ def run_spec(s, ans):
                     dl_elapsed += upper          # whatever the draw, the pause fits
                 else:
                     return []                    # a jittered pause may or may not fit: not constrained
-            if k == i and kind in ("inF", "midwait"):
+            if k == i and kind in ("inF", "midwait", "sigF"):
                 exp_calls, exp_status, reason, ctx_stop = i, "err", "canceled", True; break
             if k == i and kind == "midwaitDL":
                 exp_calls, exp_status, reason, ctx_stop = i, "err", "deadline", True; break
@@ -333,6 +333,15 @@ def build_cases(tier, seed, rnd):
             cases.append(scn("retry", r, 2, ["R%d" % x, "R%d" % x, "o"]))
         for fl in CANCEL_FLAVOURS[:2]:
             cases.append(scn("ctx", 5, 2, ["R%d" % x, "R%d" % x, "R%d" % x, "o"], kind="inF", k=2, backoff=1, mx=1, flavour=fl))
+    # --- SIGINT / SIGTERM while RetrySome / Retry is under way ends THAT call like a cancelled context (after the run it arrives in,
+    #     no further run); the operations started afterwards run once and are re-run up to their limit as ever
+    for sg in ("INT", "TERM"):
+        for api in ("some", "retry"):
+            for k in (1, 2, 3):
+                cases.append(scn(api, 7, 2, with_ids(("r",) * k + ("r", "o"), "distinct"), kind="sigF", k=k, backoff=100 * MS, mx=0, flavour=sg))
+                cases.append(dict(scn(api, 4, 2, with_ids(("r", "r", "o"), "distinct")), after=1))
+                cases.append(dict(scn("retry" if api == "some" else "some", -1, 0, ["r1", "r2", "r3", "r4", "o"]), after=2))
+                cases.append(dict(scn("ctx", 3, 2, ["r1", "r2", "r3", "o"]), after=3))
     # --- context already ended on entry, over the kinds of context Go offers
     for kind, flavours in (("precancel", CANCEL_FLAVOURS), ("predeadline", DEADLINE_FLAVOURS)):
         for fl in flavours:
@@ -525,7 +534,7 @@ def _run(tier, seed, replay=None):
     # timed scenarios that disagree are repeated alone, slower, before they are judged
     def disagree(it, g, m):
         return it["type"] == "run" and (not same_run(g, m, any(o[0] in "RF" for o in it["outs"])) or run_spec(it, g))
-    redo = [i for i, it in enumerate(items) if it["type"] == "run" and (it.get("pool") or it["kind"] == "dl") and disagree(it, go[i], model[i])]
+    redo = [i for i, it in enumerate(items) if it["type"] == "run" and (it.get("pool") or it["kind"] in ("dl", "sigF")) and disagree(it, go[i], model[i])]
     retried = 0
     for attempt in range(2):
         if not redo:
@@ -550,12 +559,13 @@ def _run(tier, seed, replay=None):
 
     evals, dist, nontriv, samples = 0, {}, set(), []
     n_nw_vals = 0
-    for it, g, m in zip(items, go, model):
+    for idx, (it, g, m) in enumerate(zip(items, go, model)):
         evals += 1
         ty = it["type"]
-        key = ty if ty != "run" else "run:" + it["api"] + ":" + it["kind"]
+        key = ty if ty != "run" else "run:" + it["api"] + ":" + it["kind"] + (":after-signal" if it.get("after") else "")
         dist[key] = dist.get(key, 0) + 1
-        rp = dict(kind="correspondence", cases=[it], observed=g[:1500], expected=m[:1500])
+        # an operation started after a signal scenario is replayed together with that scenario
+        rp = dict(kind="correspondence", cases=items[max(0, idx - it.get("after", 0)):idx + 1] if ty == "run" else [it], observed=g[:1500], expected=m[:1500])
         if ty == "nw":
             gp = [x.split(":") for x in g.split()]
             mv = m.split()
